@@ -768,6 +768,20 @@ class ServiceType(CompositeType):
         """Always raises a :class:`TypeError`."""
         raise NonSerializableTypeError("Service types do not have serializable fields. Use either request or response.")
 
+    def __hash__(self) -> int:
+        return hash((str(self), self._request_type, self._response_type))
+
+    def __eq__(self, other: object) -> bool:
+        # A service has no bit length set of its own that could tell two services of one name and version apart:
+        # they are the same if their request types and their response types are.
+        if isinstance(other, ServiceType):
+            return (
+                super().__eq__(other)
+                and self._request_type == other._request_type
+                and self._response_type == other._response_type
+            )
+        return super().__eq__(other)
+
 
 # +--[UNIT TESTS]-----------------------------------------------------------------------------------------------------+
 
